@@ -173,12 +173,22 @@ let link_of_snapshot (o : string) : string =
     String.sub rest 5 (j - 5)
   with _ -> "~"
 
-let c16_oracle (ops : op list) (obs : string list) : string =
+let c16_oracle (t0 : int) (off : int) (ops : op list) (obs : string list) : string =
   if List.length ops <> List.length obs then "fail observation-shape" else
   let cfg = ref None and active = ref false and last_snap = ref None in
+  (* the start-time name part: the (virtual) time of the first operation of the writer that computes a file name *)
+  let now = ref t0 and start = ref None in
+  let starttxt () = match !start with
+    | Some t -> format_ts start_fmt (civil_of (z_of_int (t + off)))
+    | None -> [] in
   let verdict = ref "" and checks = ref 0 in
   let fail m = if !verdict = "" then verdict := m in
   List.iter2 (fun op ob ->
+      (match op with
+       | OTick dt -> now := !now + int_of_z dt
+       | (OWrite _ | OPlain _ | OQuery _) when !start = None && !cfg <> None -> start := Some !now
+       | OStart _ | OReset _ -> start := None
+       | _ -> ());
       match op with
       | OStart c -> cfg := Some c; active := false
       | OReset c -> cfg := Some c; active := false
@@ -188,12 +198,12 @@ let c16_oracle (ops : op list) (obs : string list) : string =
         let snap = parse_snapshot ob in
         last_snap := Some snap;
         (match !cfg with
-         | Some c when not c.c_spec.fts ->
+         | Some c ->
            incr checks;
            List.iter (fun ((nm, k), _) ->
-               if int_of_n k <= 2 && not (name_documented c [] nm) then
+               if int_of_n k <= 2 && not (name_documented c (starttxt ()) nm) then
                  fail ("file-not-named-as-documented " ^ hex_of_bytes nm)) snap;
-           if c.c_symlink && !active then begin
+           if c.c_symlink && !active && not c.c_spec.fts then begin
              let l = link_of_snapshot ob in
              match current_name c snap with
              | Some cur -> if l <> hex_of_bytes cur then fail (Printf.sprintf "symlink-does-not-point-to-the-current-file link=%s current=%s" l (hex_of_bytes cur))
@@ -323,7 +333,8 @@ let flw_oracle (prop : string) (case_toks : string list) (obs : string list) : s
   (* leading external creations (the start state) are allowed before B *)
   let rec strip = function (OExtCreate _ | OExtMkdir _) :: r -> strip r | l -> l in
   if prop = "C06" || prop = "C07" || prop = "C18" then snap_oracle prop ops obs else
-  if prop = "C16" then c16_oracle ops obs else
+  if prop = "C16" then
+    (match case_toks with t0 :: off :: _ -> c16_oracle (int_of_string t0) (int_of_string off) ops obs | _ -> "skip shape") else
   if prop = "C19" then c19_oracle ops obs else
   if prop = "C11" then c11_oracle ops obs else
   if prop = "C09" then
